@@ -137,6 +137,9 @@ func runC17(c *vh.Case) {
 			}
 		}
 	}
+	if spec.Kind == "prompts" {
+		names = append(names, "") // the SDK accepts a prompt without a name; it sorts before every other and may end a page
+	}
 	r.Shuffle(len(names), func(i, j int) { names[i], names[j] = names[j], names[i] })
 	n0 := r.Range(0, min(14, len(names)))
 	for _, n := range names[:n0] {
@@ -359,6 +362,39 @@ func runC17(c *vh.Case) {
 		return true
 	}
 
+	// use: one of the registered features is used (called, fetched, read; a template through a URI it matches).
+	// Serving a feature must leave the listing alone.
+	use := func() {
+		var have []string
+		for _, n := range names {
+			if registered[idOf(n)] {
+				have = append(have, n)
+			}
+		}
+		if len(have) == 0 {
+			return
+		}
+		v := have[r.Intn(len(have))]
+		var err error
+		switch spec.Kind {
+		case "tools":
+			_, err = cs.CallTool(ctx, &mcp.CallToolParams{Name: v})
+		case "prompts":
+			_, err = cs.GetPrompt(ctx, &mcp.GetPromptParams{Name: v})
+		case "resources":
+			_, err = cs.ReadResource(ctx, &mcp.ReadResourceParams{URI: idOf(v)})
+		default:
+			_, err = cs.ReadResource(ctx, &mcp.ReadResourceParams{URI: strings.Replace(idOf(v), "{x}", "some-value", 1)})
+		}
+		spec.Steps = append(spec.Steps, fmt.Sprintf("use %s (err: %v)", v, err != nil))
+		c.Count("features_used_during_traversals", 1)
+		if err == nil {
+			c.Count("features_used_successfully", 1)
+		}
+	}
+	if r.Chance(1, 3) {
+		use()
+	}
 	// ---- traversal 1: mutations between page fetches
 	initial := map[string]bool{}
 	for id := range registered {
@@ -463,6 +499,9 @@ func runC17(c *vh.Case) {
 					spec.Steps = append(spec.Steps, "replace "+v)
 				}
 			}
+		}
+		if r.Chance(1, 3) {
+			use()
 		}
 		if r.Chance(1, 3) && !sendBad() {
 			return
